@@ -4,7 +4,12 @@ import (
 	"bytes"
 	"fmt"
 	"io"
+	"sort"
+	"strings"
 	"time"
+
+	"github.com/pckhoi/meow"
+	"github.com/wrgl/wrgl/pkg/encoding/packfile"
 
 	"verif/mc"
 )
@@ -129,16 +134,132 @@ func c18Body(c *mc.Ctx) {
 	}
 }
 
+// large objects: a packfile of three objects, one of them around or above 1 MiB (where a reader that
+// sizes its buffer from the declared length changes strategy), delivered whole, in large uniform
+// chunks, and with one and two cut points drawn from the interesting positions (object boundaries and
+// header edges +-1, the 1 MiB marks +-1): the same objects and the same end of stream must come out.
+func c18Large(c *mc.Ctx) {
+	big := []int{1<<20 - 1, 1 << 20, 1<<20 + 1, 2<<20 + 77}[c.Choose(4)]
+	pos := c.Choose(3) // where the large object sits among the three
+	c.Shard()
+	mk := func(n int, seed byte) []byte {
+		b := make([]byte, n)
+		for i := range b {
+			b[i] = byte(i*7+i/251) ^ seed
+		}
+		return b
+	}
+	objs := [][]byte{mk(40, 1), mk(300, 2), mk(9, 3)}
+	objs[pos] = mk(big, 4)
+	types := []int{packfile.ObjectCommit, packfile.ObjectBlock, packfile.ObjectTable}
+	var buf bytes.Buffer
+	pw, err := packfile.NewPackfileWriter(&buf)
+	if err != nil {
+		panic(err)
+	}
+	marks := map[int]bool{1: true, 4: true, 7: true, 8: true, 9: true}
+	for i, o := range objs {
+		start := buf.Len()
+		if _, err := pw.WriteObject(types[i], o); err != nil {
+			panic(err)
+		}
+		hdr := buf.Len() - len(o)
+		for _, m := range []int{start - 1, start, start + 1, hdr - 1, hdr, hdr + 1, buf.Len() - 1} {
+			marks[m] = true
+		}
+		if len(o) >= 1<<20 {
+			for k := 1; k <= len(o)>>20; k++ {
+				for _, m := range []int{hdr + k<<20 - 1, hdr + k<<20, hdr + k<<20 + 1} {
+					marks[m] = true
+				}
+			}
+		}
+	}
+	data := buf.Bytes()
+	n := len(data)
+	var pts []int
+	for m := range marks {
+		if m > 0 && m < n {
+			pts = append(pts, m)
+		}
+	}
+	sort.Ints(pts)
+	decode := func(r io.Reader) (string, error) {
+		pr, err := packfile.NewPackfileReader(io.NopCloser(r))
+		if err != nil {
+			return "", err
+		}
+		var out []string
+		for {
+			t, b, err := pr.ReadObject()
+			if err == io.EOF {
+				return strings.Join(out, " "), nil
+			}
+			if err != nil {
+				return strings.Join(out, " "), err
+			}
+			out = append(out, fmt.Sprintf("%d:%d:%x", t, len(b), meow.Checksum(0, b)))
+		}
+	}
+	want, werr := decode(bytes.NewReader(data))
+	if werr != nil {
+		panic("mc: large packfile does not decode from a whole buffer: " + werr.Error())
+	}
+	desc := fmt.Sprintf("packfile of 3 objects (%d, %d, %d bytes), %d bytes", len(objs[0]), len(objs[1]), len(objs[2]), n)
+	var tried int64
+	try := func(r *chunkReader, how string) bool {
+		tried++
+		var got string
+		var err error
+		if p, st := mc.Try(func() { got, err = decode(r) }); p != nil {
+			c.Fail("panic", "PackfileReader on a %s delivered %s panicked: %v\n%s", desc, how, p, firstLinesOf(st, 8))
+			return false
+		}
+		if err != nil || got != want {
+			c.Fail("chunk-dependent", "PackfileReader on a %s delivered %s: err=%v objects [%s]; a whole-buffer read gives [%s]", desc, how, err, got, want)
+			return false
+		}
+		return true
+	}
+	for _, eof := range []bool{false, true} {
+		if !try(&chunkReader{data: data, eofWithData: eof}, fmt.Sprintf("in one read (eofWithData=%v)", eof)) {
+			return
+		}
+		for _, u := range []int{1 << 12, 1 << 16, 1 << 20, 1<<20 + 1} {
+			if !try(&chunkReader{data: data, uniform: u, eofWithData: eof}, fmt.Sprintf("in %d-byte chunks (eofWithData=%v)", u, eof)) {
+				return
+			}
+		}
+		for i, a := range pts {
+			if !try(&chunkReader{data: data, cuts: []int{a}, eofWithData: eof}, fmt.Sprintf("cut at %d (eofWithData=%v)", a, eof)) {
+				return
+			}
+			for _, b := range pts[i+1:] {
+				if !try(&chunkReader{data: data, cuts: []int{a, b}, eofWithData: eof}, fmt.Sprintf("cut at %d,%d (eofWithData=%v)", a, b, eof)) {
+					return
+				}
+			}
+		}
+	}
+	c.Count("deliveries", tried)
+	c.Outcome(fmt.Sprintf("large-ok-pos%d", pos))
+	c.Nontrivial(desc)
+	if c.WantSample() {
+		c.Sample(map[string]any{"stream": desc, "deliveries_tried": tried, "cut_positions": len(pts)})
+	}
+}
+
 func init() {
 	register(&mc.Check{
 		ID:    "C18",
 		Level: "exploration",
 		Rule: "for every valid stream of the seed corpus (3 commits, 4 tables, 6 blocks, 3 block indices, 2 profiles, string-list / uint-list sequences, pkt-lines, packfiles of 1..3 objects incl. a compressed block) and its reader entry point: " +
 			"every partition of the stream into successive reads with 0, 1 and 2 cut points (3 cut points for streams <= 64 bytes, thorough <= 160 bytes), uniform chunk sizes 1..8, each with the final bytes delivered together with EOF or EOF on a separate call; " +
-			"the decoded objects, byte counts and end-of-stream condition must equal those of a single whole-buffer read. evaluations = (stream, mode) cases; the counter 'deliveries' is the number of chunked decodes; non-trivial = at least one delivery pattern tried; distinct by stream and mode",
+			"the decoded objects, byte counts and end-of-stream condition must equal those of a single whole-buffer read. Plus packfiles of three objects of which one has 1 MiB-1, 1 MiB, 1 MiB+1 or 2 MiB+77 bytes (first, middle or last), delivered whole, in 4 KiB / 64 KiB / 1 MiB / 1 MiB+1 chunks and with every one and two cut points drawn from the object boundaries, header edges and 1 MiB marks (each +-1). evaluations = (stream, mode) cases; the counter 'deliveries' is the number of chunked decodes; non-trivial = at least one delivery pattern tried; distinct by stream and mode",
 		Assumptions: []string{"zero-byte non-EOF reads are not generated (io.Reader discourages them)", "streams are the listed seed encodings, not all valid encodings"},
 		Harnesses: []*mc.Harness{
 			{Name: "chunked-readers", Body: c18Body, Budget: map[string]time.Duration{"quick": 60 * time.Second, "thorough": 10 * time.Minute}},
+			{Name: "large-objects", Body: c18Large, Budget: map[string]time.Duration{"quick": 90 * time.Second, "thorough": 5 * time.Minute}},
 		},
 	})
 }
